@@ -111,13 +111,15 @@ class P:
     PATTR = {'noundef','nonnull','zeroext','signext','noalias','nocapture','readonly','readnone','writeonly','returned',
              'inreg','nest','immarg','swiftself','swifterror','nofree','noundef'}
     def skip_param_attrs(s):
+        s.last_align = 1
         while True:
             k, v = s.peek()
             if v in s.PATTR: s.next()
             elif v in ('align', 'dereferenceable', 'dereferenceable_or_null'):
                 s.next()
-                if s.accept('('): s.next(); s.expect(')')
-                else: s.next()
+                if s.accept('('): x = s.next()[1]; s.expect(')')
+                else: x = s.next()[1]
+                if v == 'align' and x.isdigit(): s.last_align = int(x)
             elif v in ('byval', 'sret', 'byref', 'inalloca', 'preallocated', 'elementtype'):
                 s.next()
                 if s.accept('('): s.type(); s.expect(')')
@@ -648,9 +650,9 @@ class Emitter:
                 callee = ('asm', asm, cons)
             else:
                 callee = p.value(None)
-            p.expect('('); args = []
+            p.expect('('); args = []; aligns = []
             while not p.accept(')'):
-                t = p.type(); p.skip_param_attrs()
+                t = p.type(); p.skip_param_attrs(); aligns.append(p.last_align)
                 if t.k == 'metadata':
                     # skip metadata operand
                     depth = 0
@@ -662,9 +664,8 @@ class Emitter:
                 else: args.append((t, p.value(t)))
                 p.accept(',')
             fty = None
-            if rt.k == 'ptr' and rt.a.k == 'fn': fty = rt.a; rt = fty.a   # never happens: "call T (args)* @f" is parsed as fn type
             if rt.k == 'fn': fty = rt; rt = fty.a
-            d.update(callee=callee, args=args, rty=rt, fty=fty)
+            d.update(callee=callee, args=args, rty=rt, fty=fty, aligns=aligns)
         elif op == 'br':
             if p.peek()[1] == 'label': p.next(); d.update(dest=p.next()[1][1:].strip('"'))
             else:
